@@ -524,7 +524,12 @@ def run(tier, seed, out):
     out.extra["observations"] = {k: v for k, v in counters.items() if k != "drift"}
     out.rule = ("TLC enumerates (a) lists of 1-3 expressions: list skeletons whose typed holes are "
                 "filled from a sharing-heavy pool (repeated, commuted, multiplicity twins, nested "
-                "repeated subterms, pre-existing wrappers with/without prefix and scope); (b) every "
+                "repeated subterms, pre-existing wrappers with/without prefix and scope), and for every "
+                "node kind of the stock mappers (calls incl. a call / a conditional in the function "
+                "position, keyword calls, subscripts, lookups, conditionals, comparisons, logical, "
+                "bitwise, min/max, the seven operation kinds, wrappers) and EVERY child position at "
+                "any depth a repeated operation in that position with leaves as siblings, as 'host + "
+                "bare repeat' and 'two hosts with other siblings'; (b) every "
                 "history of <= MaxH top-level evaluations over <= NInst fresh/reused evaluator "
                 "instances for every 1- or 2-element list of a catalogue of hand-wrapped "
                 "expressions; (c) every helper cell (helper x argument class x prefix x scope); "
@@ -544,6 +549,12 @@ def run(tier, seed, out):
         "wrapper with a wider scope) are not judged (observation 'unspecified-cell')",
         "the histogram tagger (mapper/cse_tagger) is judged for value only; its sharing and nesting "
         "are observations",
+        "the sharing sentences are judged on lists built from variables, constants, sums, products, "
+        "divisions, powers, calls and pre-existing wrappers (the statement's list); lists carrying any "
+        "other node kind are judged for value, wrapper-on-wrapper and the cache invariants, their "
+        "sharing is the observation 'out-of-scope-not-shared'",
+        "ReturnedAllDone / DoneClosed ask for the wrappers the evaluation reaches (Python's if / any / "
+        "all skip operands); without conditionals that is every wrapper",
     ]
 
 
